@@ -127,3 +127,33 @@ func SwapInt32(p *int32, v int32) int32     { pt(); r := atomic.SwapInt32(p, v);
 func SwapInt64(p *int64, v int64) int64     { pt(); r := atomic.SwapInt64(p, v); after(); return r }
 func SwapUint32(p *uint32, v uint32) uint32 { pt(); r := atomic.SwapUint32(p, v); after(); return r }
 func SwapUint64(p *uint64, v uint64) uint64 { pt(); r := atomic.SwapUint64(p, v); after(); return r }
+
+// ---- operations the pinned library does not use today (kept so a changed library still builds) ----
+
+func (x *Int32) And(m int32) int32    { pt(); r := x.v.And(m); after(); return r }
+func (x *Int32) Or(m int32) int32     { pt(); r := x.v.Or(m); after(); return r }
+func (x *Int64) And(m int64) int64    { pt(); r := x.v.And(m); after(); return r }
+func (x *Int64) Or(m int64) int64     { pt(); r := x.v.Or(m); after(); return r }
+func (x *Uint32) And(m uint32) uint32 { pt(); r := x.v.And(m); after(); return r }
+func (x *Uint32) Or(m uint32) uint32  { pt(); r := x.v.Or(m); after(); return r }
+func (x *Uint64) And(m uint64) uint64 { pt(); r := x.v.And(m); after(); return r }
+func (x *Uint64) Or(m uint64) uint64  { pt(); r := x.v.Or(m); after(); return r }
+func (x *Value) CompareAndSwap(o, n any) bool {
+	pt()
+	r := x.v.CompareAndSwap(o, n)
+	after()
+	return r
+}
+
+type Uintptr struct{ v atomic.Uintptr }
+
+func (x *Uintptr) Load() uintptr          { pt(); return x.v.Load() }
+func (x *Uintptr) Store(v uintptr)        { pt(); x.v.Store(v); after() }
+func (x *Uintptr) Swap(v uintptr) uintptr { pt(); r := x.v.Swap(v); after(); return r }
+func (x *Uintptr) Add(d uintptr) uintptr  { pt(); r := x.v.Add(d); after(); return r }
+func (x *Uintptr) CompareAndSwap(o, n uintptr) bool {
+	pt()
+	r := x.v.CompareAndSwap(o, n)
+	after()
+	return r
+}
